@@ -1119,10 +1119,12 @@ ForBody(c, f, v) ==    \* bind the loop variables to element v and run the body 
               ELSE LET el == ElemsOf(c, v) IN
                    IF el.ok THEN [ok |-> TRUE, env |-> BindSeq(c.env, node.vars, el.s, 1)] ELSE [ok |-> FALSE]
         tys == node.tys
-        bad == {i \in 1 .. Len(tys) : c.checks /\ tys[i] # "" /\ Has(c1.env, node.vars[i])
-                                       /\ TypeMatches(c, c1.env[node.vars[i]], tys[i]) # "y"}
+        \* the value each argument takes (ignored arguments included: a hinted `_` is checked too)
+        el2 == IF Len(node.vars) = 1 THEN <<v>> ELSE (IF ElemsOf(c, v).ok THEN ElemsOf(c, v).s ELSE <<>>)
+        val(i) == IF i <= Len(el2) THEN el2[i] ELSE VNull
+        bad == {i \in 1 .. Len(tys) : c.checks /\ tys[i] # "" /\ TypeMatches(c, val(i), tys[i]) # "y"}
     IN IF ~c1.ok THEN Unspec(c, "for-unpack-kind")
-       ELSE IF \E i \in bad : TypeMatches(c, c1.env[node.vars[i]], tys[i]) = "u" THEN Unspec(c, "for-type-unspec")
+       ELSE IF \E i \in bad : TypeMatches(c, val(i), tys[i]) = "u" THEN Unspec(c, "for-type-unspec")
        ELSE IF bad # {} THEN RtErr(c, "for-arg-type")
        ELSE Ev([Push(c, [f EXCEPT !.ph = "body", !.n = @ + 1]) EXCEPT !.env = c1.env], node.b)
 
